@@ -267,6 +267,8 @@ class OpGen:
     def scalar(self):
         r = self.rng
         k = r.random()
+        if k < 0.12:
+            return {"t": "strsub", "v": self.text(3)}
         if k < 0.6:
             return self.text(3)
         if k < 0.8:
@@ -314,6 +316,8 @@ class OpGen:
                 t = "" if k2 < 0.2 else ("." + t if k2 < 0.85 else t)
             if m in ("with_user", "with_password", "with_fragment") and r.random() < 0.1:
                 t = None
+            elif isinstance(t, str) and r.random() < 0.08:
+                t = {"t": "strsub", "v": t}
             op = {"op": "mod", "base": base, "m": m, "args": [t]}
             if m in ("with_path", "with_name", "with_suffix") and r.random() < 0.3:
                 op["kw"] = {"keep_query": r.random() < 0.5, "keep_fragment": r.random() < 0.5}
@@ -372,6 +376,8 @@ def walk_texts(op):
         if isinstance(x, str):
             out.append(x)
         elif isinstance(x, dict):
+            if x.get("t") in ("int", "float", "intsub", "floatsub", "bytes"):
+                return
             for k, v in x.items():
                 if k not in ("op", "m", "t"):
                     rec(v)
